@@ -209,7 +209,13 @@ def r4(F, rep):
                feat in X.key(X.call_args(c)[0], g)]
         ok = False
         for c in ens:
-            facts, gs = C.guard_facts(g, c, X.const_locals(g))
+            # conditions of the enclosing ifs only: earlier error returns of the initialisation are not conditions on
+            # the object's configuration
+            from .rules_c03 import structural_guards
+            facts = set()
+            for cn, pol in structural_guards(g, c):
+                if cn is not None:
+                    facts |= C.facts(g, cn, pol, X.const_locals(g))
             # unconditional, or for every factor > 1
             flags = [t for t in facts if "time_step_factor" in str(t)]
             other = [t for t in facts if "time_step_factor" not in str(t) and t[0] in ("true", "false")]
